@@ -50,6 +50,98 @@ def close_dec(x: float, d: Decimal, k: int) -> bool:
     return abs(xd - d) <= tol
 
 
+def pipeline_stratum(ck, rng, n_cases):
+    import catalogs as C
+    import oracle as O
+    import yaw
+    from yaw import AngularCoordinates, Configuration
+    root = C.scratch_root()
+    edges = [0.1, 0.4, 0.7, 1.0]
+    cents = np.array([[0.2, 0.0], [1.0, 0.3], [2.0, -0.4], [3.0, 0.5]])
+    try:
+        with C.Workers(1):
+            for ci in range(n_cases):
+                nprng = np.random.default_rng(rng.randrange(2 ** 31))
+                P = 3 + ci % 2
+
+                def sample(n_per, zbins_of_patch, weighted):
+                    ra, dec, z, pid = [], [], [], []
+                    for p in range(P):
+                        k = n_per
+                        ra += list(cents[p, 0] + nprng.uniform(-0.02, 0.02, k))
+                        dec += list(cents[p, 1] + nprng.uniform(-0.02, 0.02, k))
+                        bins = zbins_of_patch(p)
+                        lo = np.array([edges[b] for b in nprng.choice(bins, k)])
+                        z += list(lo + nprng.uniform(0.01, 0.29, k))
+                        pid += [p] * k
+                    w = nprng.choice([1.0, 2.0, 3.0], len(ra)) if weighted else None
+                    return dict(ra=np.array(ra), dec=np.array(dec), z=np.array(z), w=w, patch=np.array(pid))
+                # the reference sample lacks the top bin in patch 0 and the bottom bin in patch 1
+                sparse = lambda p: [0, 1] if p == 0 else ([1, 2] if p == 1 else [0, 1, 2])      # noqa: E731
+                dense = lambda p: [0, 1, 2]                                                        # noqa: E731
+                smp = {"ref": sample(14, sparse, True), "unk": sample(25, dense, ci % 2 == 0),
+                       "rref": sample(30, dense, False), "runk": sample(30, dense, False)}
+                cen = AngularCoordinates(cents[:P])
+                try:
+                    cats = {k: C.make_catalog(root / f"p{ci}_{k}", v["ra"], v["dec"], z=v["z"], w=v["w"], centers=cen)
+                            for k, v in smp.items()}
+                except ValueError:
+                    continue
+                conf = Configuration.create(rmin=0.002, rmax=0.03, unit="rad", edges=edges, closed="left")
+                data = {k: O.CatData(v["ra"], v["dec"], v["patch"], z=v["z"], w=v["w"]) for k, v in smp.items()}
+
+                def term(a, b, binned2):
+                    counts, sw1, sw2, margin = O.pair_counts(data[a], None if b is None else data[b], num_patches=P,
+                                                             edges=np.array(edges), closed="left", rmin=0.002, rmax=0.03,
+                                                             unit="rad", cosmology=None, binned2=binned2)
+                    tot = counts[0].sum(axis=(1, 2))
+                    if b is None:
+                        wtot = 0.5 * sw1.sum(axis=1) ** 2
+                    else:
+                        wtot = sw1.sum(axis=1) * sw2.sum(axis=1)
+                    return tot / wtot, margin
+                runs = [("cross dd|dr|rd|rr", lambda: yaw.crosscorrelate(conf, cats["ref"], cats["unk"], ref_rand=cats["rref"],
+                                                                        unk_rand=cats["runk"])[0],
+                         {"dd": ("ref", "unk", False), "dr": ("ref", "runk", False), "rd": ("rref", "unk", False),
+                          "rr": ("rref", "runk", False)}),
+                        ("cross dd|rd", lambda: yaw.crosscorrelate(conf, cats["ref"], cats["unk"], ref_rand=cats["rref"])[0],
+                         {"dd": ("ref", "unk", False), "rd": ("rref", "unk", False)}),
+                        ("auto dd|dr|rr", lambda: yaw.autocorrelate(conf, cats["ref"], cats["rref"], count_rr=True)[0],
+                         {"dd": ("ref", None, True), "dr": ("ref", "rref", True), "rr": ("rref", None, True)})]
+                for label, fn, terms in runs:
+                    rep = {"kind": "pipeline", "measurement": label, "patches": P,
+                           "samples": {k: {a: (None if x is None else np.asarray(x).tolist()) for a, x in v.items()}
+                                       for k, v in smp.items()}}
+                    ck.count("pipeline:" + label)
+                    ck.case(None, ("pipeline", ci, label))
+                    try:
+                        got = fn().sample().data
+                    except Exception as e:  # noqa: BLE001
+                        ck.add_violation(f"{label} on catalogs sharing their centres raised {type(e).__name__}: {e}", rep)
+                        continue
+                    vals, bad_margin = {}, False
+                    for k, (a, b, binned2) in terms.items():
+                        vals[k], margin = term(a, b, binned2)
+                        bad_margin = bad_margin or margin < 1e-9
+                    if bad_margin:
+                        continue
+                    if "rr" in vals:
+                        want = (vals["dd"] - vals["dr" if "dr" in vals else "rd"] - vals.get("rd", vals.get("dr")) + vals["rr"]) / vals["rr"]
+                    else:
+                        mixed = vals["rd"] if "rd" in vals else vals["dr"]
+                        want = vals["dd"] / mixed - 1.0
+                    okmask = np.isfinite(want)
+                    if not np.allclose(got[okmask], want[okmask], rtol=1e-9, atol=1e-12) or \
+                            not np.array_equal(np.isfinite(got), okmask):
+                        ck.add_violation(f"{label}: the sampled correlation function {got.tolist()} is not the documented "
+                                         f"estimator of the total pair counts over the products of the samples' total weights "
+                                         f"{want.tolist()} (reference sample without objects in some (patch, bin) cells)", rep)
+                for k in cats:
+                    C.remove(root / f"p{ci}_{k}")
+    finally:
+        C.remove(root)
+
+
 def run(prop, tier, seed, replay):
     from yaw.correlation.corrdata import CorrData
     from yaw.correlation.corrfunc import CorrFunc
@@ -72,6 +164,10 @@ def run(prop, tier, seed, replay):
         case = G.rand_corrfunc_parts(rng, mask=ci % 8, auto=(ci // 8) % 2 == 0)
         reqs.append(G.enc_cf(str(ci), case))
         cases.append(case)
+    # stratum: the normalisation of a REAL measurement — total pair counts over the product of the samples' total weights,
+    # with a sparse reference sample whose outer redshift bins are populated in some patches only (DESIGN 9, C04_m8)
+    pipeline_stratum(ck, rng, 2 if tier == "quick" else 10)
+
     # stratum: no hidden state — measurements that come and go, containers changed between two samplings
     import strata_state
     strata_state.run_stratum(ck, rng, 12 if tier == "quick" else 60)
